@@ -18,7 +18,10 @@ pub struct Fault;
 pub type Flt = Option<(u64, std::io::ErrorKind)>;
 
 /// names as printed by `util::io_kind` / `Out.className` (`injected` = `ConnectionAborted`)
-pub const KINDS: [(&str, std::io::ErrorKind); 7] = [
+/// `interrupted`: the one kind std's loops (`read_exact`, `write_all`, `read_to_end`, `io::copy`) do not forward but
+/// retry - inside them such a failure is invisible (one more I/O call), outside them (a bare `read` / `seek` / `flush`)
+/// it surfaces like any other.  Rotated on the ops whose model describes that (`INTR_OPS`).
+pub const KINDS: [(&str, std::io::ErrorKind); 8] = [
     ("injected", std::io::ErrorKind::ConnectionAborted),
     ("invalidinput", std::io::ErrorKind::InvalidInput),
     ("eof", std::io::ErrorKind::UnexpectedEof),
@@ -26,6 +29,7 @@ pub const KINDS: [(&str, std::io::ErrorKind); 7] = [
     ("other", std::io::ErrorKind::Other),
     ("writezero", std::io::ErrorKind::WriteZero),
     ("brokenpipe", std::io::ErrorKind::BrokenPipe),
+    ("interrupted", std::io::ErrorKind::Interrupted),
 ];
 
 pub struct FaultIo {
@@ -156,6 +160,11 @@ fn enc_archive(r: &mut Rng) -> (Vec<u8>, Vec<u8>) {
             (w.finish().map(|c| c.into_inner()).unwrap_or_default(), vec![])
         }
     }
+}
+
+/// a `kind=interrupted` fault on an op whose model does not describe std's retry loops
+fn intr_unmodelled(op: &str, a: &std::collections::BTreeMap<String, String>) -> bool {
+    (op == "fault.read" || op == "fault.write") && a.get("kind").map(|s| s.as_str()) == Some("interrupted") && a.get("k").map(|s| s.as_str()) != Some("none")
 }
 
 fn k_of(a: &std::collections::BTreeMap<String, String>) -> Flt {
@@ -503,6 +512,49 @@ fn is_kj(run: &SRun, free: &SRun) -> bool {
     run.toks.len() > j && free.toks.len() > j && run.toks[..=j] == free.toks[..=j] && run.toks.get(j + 1) != free.toks.get(j + 1)
 }
 
+/// `ZipStreamReader::visit` under faults, with a visitor that asks for `consume` decoded bytes of every entry
+/// (`read::consume_k`) and returns a read error to `visit` (as `extract` does: `io::copy(..)?`).  Tokens: one
+/// `<i>=<name>:ok:<crc>:<len>` per completed `visit_file`, then — only when `visit` returned Ok — one `m=<name>` per
+/// metadata record, then `visit=ok` / `visit=<error class>`.  `pulls` as in `run_streaming`.
+fn run_visit(bytes: Vec<u8>, consume: usize, k: Flt) -> Result<SRun, ()> {
+    struct V { consume: usize, toks: Vec<String>, metas: Vec<String>, pulls: Vec<(u16, u64, u64, bool)>, log: Rc<std::cell::RefCell<Vec<(u64, u64)>>> }
+    impl zip::unstable::stream::ZipStreamVisitor for V {
+        fn visit_file(&mut self, f: &mut zip::read::ZipFile<'_>) -> zip::result::ZipResult<()> {
+            let i = self.pulls.len();
+            let l0 = self.log.borrow().len();
+            let (got, err) = super::read::consume_k(f, self.consume);
+            {
+                let lg = self.log.borrow();
+                let rd = &lg[l0..];
+                let pulled: u64 = rd.iter().map(|x| x.1).sum();
+                let chunk = rd.iter().map(|x| x.0).max().unwrap_or(65536);
+                self.pulls.push((super::read::method_u16(f.compression()), pulled, chunk, pattern_regular(rd, pulled, chunk)));
+            }
+            if let Some(e) = err { return Err(e.into()); }
+            self.toks.push(format!("{i}={}:ok:{}:{}", hex(f.name().as_bytes()), crc32fast::hash(&got), got.len()));
+            Ok(())
+        }
+        fn visit_additional_metadata(&mut self, m: &zip::unstable::stream::ZipStreamFileMetadata) -> zip::result::ZipResult<()> {
+            self.metas.push(format!("m={}", hex(m.name().as_bytes())));
+            Ok(())
+        }
+    }
+    let io = FaultIo::new(bytes, k);
+    let calls = io.calls.clone();
+    let log = io.reads.clone();
+    let r = catch(std::panic::AssertUnwindSafe(move || {
+        let mut v = V { consume, toks: vec![], metas: vec![], pulls: vec![], log };
+        let res = zip::unstable::stream::ZipStreamReader::new(io).visit(&mut v);
+        let mut run = SRun { toks: v.toks, ncalls: 0, any_err: res.is_err(), drain_hit: None, pulls: v.pulls };
+        match res {
+            Ok(()) => { run.toks.extend(v.metas); run.toks.push("visit=ok".into()); }
+            Err(e) => run.toks.push(format!("visit={}", super::read::cls_z(&e))),
+        }
+        run
+    }));
+    match r { Ok(mut run) => { run.ncalls = calls.get(); Ok(run) }, Err(_) => Err(()) }
+}
+
 /// A writer-made archive with compressed (and stored) entries for the streaming scenarios; `big`: one entry of
 /// incompressible data whose compressed stream spans several decoder pulls and several 64 KiB drain reads.
 fn comp_stream_archive(r: &mut Rng, big: bool) -> Vec<u8> {
@@ -565,7 +617,7 @@ impl Stream for Fault {
 
     fn gen(&self, seed: u64, tier: &str) -> GenOut {
         let mut g = GenOut::default();
-        g.rule = "scenarios: (read) open + read every entry of small stored archives from the independent builder (prefix, ZIP64 end records, descriptors, comments) and the writer; (write) stored call sequences incl. directories, symlinks, extra data (local and central-only), comments, aligned entries, raw copies into the faulting sink, finish/drop, second finish, and append onto bases (writer-made and from the independent builder) - one `fam.<family>` counter each; compressing / ZipCrypto entries with the codec tables; for each scenario the fault-free run and then a hard error injected at EVERY I/O call index k (exhaustive per scenario), its io::ErrorKind rotating over 7 kinds (`kind.*` counters; scenarios that open an archive: every k also with InvalidInput, the kind get_directory_counts inspects). non-trivial = a fault run (k given)".into();
+        g.rule = "scenarios: (read) open + read every entry of small stored archives from the independent builder (prefix, ZIP64 end records, descriptors, comments) and the writer; (write) stored call sequences incl. directories, symlinks, extra data (local and central-only), comments, aligned entries, raw copies into the faulting sink, finish/drop, second finish, and append onto bases (writer-made and from the independent builder) - one `fam.<family>` counter each; compressing / ZipCrypto entries with the codec tables; for each scenario the fault-free run and then a hard error injected at EVERY I/O call index k (exhaustive per scenario), its io::ErrorKind rotating over 8 kinds incl. Interrupted (`kind.*` counters; scenarios that open an archive: every k also with InvalidInput, the kind get_directory_counts inspects; Interrupted is compared with the model on the streaming ops - M.retried - and judged by the oracle alone on fault.read / fault.write); (stream) read_zipfile_from_stream with a consumer that asks for `consume` bytes of each entry and drops it, compared call by call with Model.streamEntryCI (stored entries exact; deflate / bzip2 / zstd entries with the decoders' measured pull pattern pulled= / cbuf=; one nested-archive scenario behind 64 KiB drain reads = K-J, one incompressible entry spanning several decoder pulls and drain reads), and the same streams through ZipStreamReader::visit (fault.visit, Model.visitFile / drainE / visitCentral: no known finding there). non-trivial = a fault run (k given)".into();
         let nscen = if tier == "thorough" { 2000 } else { 80 };
         // a writer-made archive: a plain call sequence, finished
         let finished = |r: &mut Rng| -> Vec<u8> {
@@ -619,6 +671,21 @@ impl Stream for Fault {
                     };
                     g.push("stream.free", format!("{op} bytes={} consume={consume}{tail} k=none", hex(&bytes)));
                     push_faults(&mut g, "stream.k", &format!("{op} bytes={} consume={consume}{tail}", hex(&bytes)), i, free.ncalls, false);
+                    // the same stream through `ZipStreamReader::visit` (visitor: the same consumer, a read error is
+                    // returned to `visit`): the entry is drained EXPLICITLY after `visit_file` and a read error of
+                    // that drain is `visit`'s error (repair of K-J for the visitor API) - every second scenario,
+                    // always the nested and the big one
+                    if nested || big || (i / 16) % 2 == 0 {
+                        if let Ok(vfree) = run_visit(bytes.clone(), consume, None) {
+                            let (vop, vtail) = match pull_args(&vfree, consume) {
+                                Some(pa) => ("fault.visit", format!(" codec={codec} {pa}")),
+                                None => { *g.dist.entry("visit.pattern-unmodelled".into()).or_insert(0) += 1; ("fault.visito", String::new()) }
+                            };
+                            if nested { *g.dist.entry("visit.nested-behind-drain".into()).or_insert(0) += 1; }
+                            g.push("visit.free", format!("{vop} bytes={} consume={consume}{vtail} k=none", hex(&bytes)));
+                            push_faults(&mut g, "visit.k", &format!("{vop} bytes={} consume={consume}{vtail}", hex(&bytes)), i, vfree.ncalls, false);
+                        }
+                    }
                 }
                 3 | 11 => {
                     // encrypted / compressed read scenario, small caller buffers, retry after an error (oracle only)
@@ -691,12 +758,22 @@ impl Stream for Fault {
     fn run(&self, line: &str) -> String {
         let (op, a) = parse_line(line);
         let k = k_of(&a);
+        // `Interrupted` inside std's retry loops is described by the model only for the streaming ops (`M.retried`);
+        // `Model.readExact` / `writeAll` treat every kind as a hard failure (known model limitation, DESIGN R9): on the
+        // seekable reader and the writer such a fault is judged by the oracle alone
+        if intr_unmodelled(&op, &a) { return "oracle-only".into(); }
         match op.as_str() {
             "fault.read" => {
                 let (s, n) = run_read(get_hex(&a, "bytes").unwrap_or_default(), k);
                 format!("{s} ncalls={n}")
             }
-            "fault.enc" | "fault.writec" | "fault.writeo" | "fault.rawcopy" | "fault.streamo" => "oracle-only".into(),
+            "fault.enc" | "fault.writec" | "fault.writeo" | "fault.rawcopy" | "fault.streamo" | "fault.visito" => "oracle-only".into(),
+            "fault.visit" => {
+                match run_visit(get_hex(&a, "bytes").unwrap_or_default(), get_u64(&a, "consume").unwrap_or(0) as usize, k) {
+                    Ok(r) => format!("{} ncalls={}", r.toks.join(" "), r.ncalls),
+                    Err(()) => "panic".into(),
+                }
+            }
             "fault.stream" => {
                 match run_streaming(get_hex(&a, "bytes").unwrap_or_default(), get_u64(&a, "consume").unwrap_or(0) as usize, k) {
                     Ok(r) => format!("{} ncalls={}", r.toks.join(" "), r.ncalls),
@@ -744,6 +821,23 @@ impl Stream for Fault {
             }
             return f;
         }
+        if op == "fault.visit" || op == "fault.visito" {
+            let bytes = get_hex(&a, "bytes").unwrap_or_default();
+            let consume = get_u64(&a, "consume").unwrap_or(0) as usize;
+            let run = match run_visit(bytes.clone(), consume, k) {
+                Ok(r) => r,
+                Err(()) => { f.push(OracleFailure { what: format!("panic under an injected I/O fault in ZipStreamReader::visit: k={k:?} consume={consume}") }); return f; }
+            };
+            // `visit` returns a Result and drains every entry itself: NO known finding here - Ok under a fault with
+            // anything but the fault-free visits is a violation, wherever the fault fired
+            if k.is_some() && !run.any_err {
+                let free = match run_visit(bytes, consume, None) { Ok(r) => r, Err(()) => return f };
+                if run.toks != free.toks {
+                    f.push(OracleFailure { what: format!("ZipStreamReader::visit returned Ok under the fault but visited other entries than the fault-free run: `{}` vs `{}`", run.toks.join(" "), free.toks.join(" ")) });
+                }
+            }
+            return f;
+        }
         if op == "fault.rawcopy" {
             let src = get_hex(&a, "src").unwrap_or_default();
             let chunk = get_u64(&a, "chunk").unwrap_or(7) as usize;
@@ -774,8 +868,10 @@ impl Stream for Fault {
         match op.as_str() {
             "fault.read" => {
                 let bytes = get_hex(&a, "bytes").unwrap_or_default();
-                let (free, _) = run_read(bytes, None);
+                let (free, _) = run_read(bytes.clone(), None);
                 // every call returned a value: open ok and every entry ok ⇒ identical to the fault-free run
+                let own;
+                let resp = if resp == "oracle-only" { let (s, n) = run_read(bytes, k); if s.contains("panic") { f.push(OracleFailure { what: format!("panic under an injected I/O fault: k={k:?}") }); return f; } own = format!("{s} ncalls={n}"); own.as_str() } else { resp };
                 let all_ok = resp.starts_with("open=ok") && !resp.contains("=err");
                 let r = resp.rsplit_once(" ncalls=").map(|x| x.0).unwrap_or(resp);
                 if all_ok && r != free { f.push(OracleFailure { what: format!("reader: every call succeeded under the fault but the result differs from the fault-free run: `{r}` vs `{free}`") }); }
